@@ -89,7 +89,7 @@ def corpus(seed):
     for i, s_ in enumerate(['select `status`, `view` from `tables` where `read` = 1', 'select t.`level` from `session` t order by t.`index`',
                             'select `model`, `engine`, `job` from `databases`', 'select `select`, `from` from `where`', 'select `latest`, `horizon` from `predict`',
                             'select `a b`, `view` as `status` from `t-1`.`tables`']):
-        for d in ('mysql', 'mindsdb'):
+        for d in ('mysql', 'mindsdb', 'sqlite'):
             out.append((f'parse-kw:{i}:{d}', 'parse', (s_, d)))
     # plan: federated, model joins with versions (the shared-metadata stress), time series
     for i in range(25):
@@ -500,7 +500,10 @@ def axis_cold_threads(ctx, items, gold, rounds):
         r = core.rng_for(ctx.seed, 'C20', 'cold', ctx.shard, rnd)
         # every other round starts each thread on statements whose identifiers are named like keywords (what is printed for
         # them depends on tables that are filled at first use)
-        work = [([kw[r.randrange(len(kw))] for _ in range(2)] if rnd % 2 == 0 else []) + [light[r.randrange(len(light))] for _ in range(5)]
+        # (in two of four rounds all threads start in ONE dialect other than mindsdb: whatever the library loads lazily on the first
+        # print - modules of the other dialects included - is then loaded while the other threads are printing)
+        first = [it for it in kw if it[0].endswith(':mysql')] if rnd % 4 == 0 else [it for it in kw if it[0].endswith(':sqlite')] if rnd % 4 == 2 else kw
+        work = [([first[r.randrange(len(first))] for _ in range(3)] if rnd % 2 == 0 else []) + [light[r.randrange(len(light))] for _ in range(5)]
                 for _ in range(NTHREADS)]
         base = os.path.join(core.VERIF, '.work', f'c20-cold-{os.getpid()}-{rnd}')
         os.makedirs(os.path.dirname(base), exist_ok=True)
